@@ -873,15 +873,66 @@ def observe_iexpr(text):
     from exactly_lib.impls.types.integer import evaluate_integer as ei
     try:
         v = ei.python_evaluate(text)
-        if type(v) is bool:
-            raise AssertionError('bool from an arithmetic expression: ' + text)
-        return '(OValue %s)' % cZ(v), ('value', v)
+        return '(OValue %s)' % cZ(int(v)), ('value', int(v))
     except ei.NotAnIntegerException:
         return 'ONotInt', ('notint',)
     except BaseException as ex:
         if isinstance(ex, KeyboardInterrupt):
             raise
         return '(OEscapes %s)' % coq_class_of(type(ex)), ('escapes', type(ex).__name__)
+
+
+def eval_oracle(text):
+    """what Python's eval itself does with the text, in the name space python_evaluate evaluates it in -> Coq [ires]"""
+    from exactly_lib.impls.types.integer import evaluate_integer as ei
+    try:
+        v = eval(text, dict(vars(ei)), {'s': text})
+    except BaseException as ex:
+        if isinstance(ex, (KeyboardInterrupt, _Timeout)):
+            raise
+        return '(RExc %s)' % coq_class_nearest(type(ex))
+    if isinstance(v, int):
+        if abs(int(v)).bit_length() > 3000:
+            return None  # too big to print: covered end to end (KF-C18-4)
+        return '(RInt %s)' % cZ(int(v))
+    return 'RNonInt'
+
+
+def opaque_int_texts():
+    """argument texts outside the modelled expression syntax: the ill-formed / extreme integer family (quotes of the test-case
+    syntax removed), the digit-like family, and the two texts of KF-C18-3"""
+    out = []
+    for t in BAD_INTS:
+        if len(t) >= 2 and t[0] == t[-1] and t[0] in '\'"':
+            t = t[1:-1]
+        if '@[' in t or t in out or '9**9**9' in t:
+            continue
+        out.append(t)
+    return out + ['exit()', 'quit(3)']
+
+
+def run_opaque_ints(ctx, res):
+    """python_evaluate on every opaque text, against the model applied to what eval itself does with it"""
+    terms, meta, findings = [], [], []
+    for text in opaque_int_texts():
+        oracle = eval_oracle(text)
+        if oracle is None:
+            continue
+        direct, d = observe_iexpr(text)
+        terms.append('(ICase (IOracle %s) %s None)' % (oracle, direct))
+        meta.append({'kind': 'integer argument text', 'text': text, 'python_eval': oracle, 'python_evaluate': d})
+        findings.append(KF_EXIT if d == ('escapes', 'SystemExit') and kf_exit_pred(text) else None)
+        res.count('opaque integer text: ' + d[0])
+        res.nontrivial.add(('o', text))
+    cb, pb, errs = common.run_shards(PROP, ['Model.Outcome', 'Model.Errors', 'Spec.C18'], 'check_icase', terms, tag='ocases')
+    res.errors += errs
+    for i in pb:
+        res.prop_failures.append(Failure('property', meta[i], 'an exception other than NotAnIntegerException leaves python_evaluate for '
+                                                               'this argument text', finding=findings[i]))
+    for i in cb:
+        res.disagreements.append(Failure('correspondence', meta[i], 'python_evaluate differs from the model applied to what eval does '
+                                                                     'with the text'))
+    return len(terms)
 
 
 def run_iexprs(ctx, res, runner):
@@ -1067,6 +1118,7 @@ def run(ctx, res):
     runner = Runner(ctx.work)
     try:
         n = run_iexprs(ctx, res, runner)
+        n += run_opaque_ints(ctx, res)
         n += run_templates(ctx, res, runner)
         n += run_fuzz(ctx, res, runner)
         if not ctx.quick:
@@ -1118,6 +1170,7 @@ def search(ctx, res):
         runner = Runner(ctx.work, 'search')
         try:
             run_iexprs(ctx2, r2, runner)
+            run_opaque_ints(ctx2, r2)
             run_templates(ctx2, r2, runner)
             run_fuzz(ctx2, r2, runner)
         finally:
@@ -1824,6 +1877,15 @@ BAD_INTS = ["''", 'abc', '1.5', '1//0', '1%0', '2**-1', '0**-1', '10**100', '10*
             '1j', '"[1][1]"', '"{}[0]"', '1/0', '1.0//0', '2.0**10000', '"1 if"', '"(1"', '1)', '"1,2"', '5:', ':', '"\\n1"', '1\u00a0',
             '"2**0.5"', '"0.1+0.2"', '"\'1\'*3"', '"-0"', '"9"*3', 'zz', '@[UNDEFINED_SYMBOL]@', '"@[S_LIST]@"', '10**4299',
             '10**4300 - 10**4300', '"int(\'1\'*5000)"']
+# characters for which str.isdigit() / isdecimal() / isnumeric() is true but that are not ASCII digits (Unicode Nd, No, Nl), alone,
+# repeated and mixed with ASCII: what int() and eval() make of them differs from character to character
+DIGIT_LIKE_CHARS = ['\u00b2', '\u00b3', '\u00b9', '\u2460', '\u2473', '\uff10', '\uff11', '\uff19', '\u0663', '\u0661', '\u06f3', '\u0969',
+                    '\u0e53', '\u216b', '\u2177', '\u00bd', '\u3007', '\u32bf', '\U0001d7cf', '\U0001d7e1', '\u07c1', '\u2070', '\u2079',
+                    '\u2080', '\u2488', '\u24ea', '\u3021', '\u5341', '\u0be7', '\u1369', '\U00010107', '\u2189']
+DIGIT_LIKE = (DIGIT_LIKE_CHARS + [c * 2 for c in DIGIT_LIKE_CHARS[:12]] + ['1' + c for c in DIGIT_LIKE_CHARS[:16]]
+              + [c + '1' for c in DIGIT_LIKE_CHARS[:16]] + ['\u00b9\u00b2', '\uff11\uff12\uff13', '\u0661\u0662\u0663', '"\u0663 + 1"', '"2**\u00b2"',
+                                                          '-\u00b2', '"(\u2460)"', '\u00b2\u0663', '0\u00b2', '"\u00b2 "', '"1_\u0661"', '0x\uff11'])
+BAD_INTS = BAD_INTS + DIGIT_LIKE
 BAD_REGEXES = ["'('", "'[a'", "'*a'", "'a{2,1}'", "'(?P<n>a)(?P<n>b)'", "'\\'", "'(?z)'", "'a**'", "'(?<=a+)b'", "'[z-a]'", "'\\1'",
                "'(?i'", "')'", "'\\p{L}'", "'(?P<n'", "'(?P<1>a)'", "'\\g<1>'", "'a{99999999999}'", "'(?#'", "'\\N{no such}'",
                "'[[:alpha:]]'", "'(?P=zz)'", "'\\8'", "'x(?=y'", "'(' ", '@[UNDEFINED_SYMBOL]@', "''", '"\\"', "'(?-i)a'", "'((a)'",
@@ -2304,6 +2366,31 @@ DIRECTIVE_VARIANTS = [('including', True), ('including inc.xly inc2.xly', True),
                       ('including inc2.xly', False), ('including no-such-file.xly', True), ("including 'unterminated", True)]
 
 
+SDS_SYMBOLS = ['EXACTLY_ACT', 'EXACTLY_TMP', 'EXACTLY_RESULT', 'SP_ACT', 'SP_TMP']
+SDS_DEFS = {'SP_ACT': 'def path SP_ACT = -rel-act sub\n', 'SP_TMP': 'def path SP_TMP = -rel-tmp t\n'}
+
+
+def sandbox_dependent(value, sym, front):
+    """the value combined with a reference to a symbol that denotes a path in the sandbox: such a value can be resolved - and so
+    validated - only after the sandbox has been created"""
+    v = value.strip()
+    if len(v) >= 2 and v[0] == v[-1] and v[0] in '\'"':
+        v = v[1:-1]
+    ref = '@[%s]@' % sym
+    body = ref + v if front else v + ref
+    return '"%s"' % body if any(ch.isspace() for ch in body) or '\'' in body or not body else body
+
+
+def with_def(template, sym):
+    if sym not in SDS_DEFS:
+        return template
+    if template.startswith('[setup]\n'):
+        return '[setup]\n' + SDS_DEFS[sym] + template[len('[setup]\n'):]
+    if template.startswith('[conf]\n'):
+        return template
+    return '[setup]\n' + SDS_DEFS[sym] + template
+
+
 def systematic_cases(ctx):
     """(label, text, offending line or None): every ill-formed / extreme value at argument positions of its kind (quick: two positions
     per value, thorough: all); every malformed file-inclusion directive in every instruction phase, as last line with and without
@@ -2315,6 +2402,13 @@ def systematic_cases(ctx):
             ts = POSITIONS[role] if not ctx.quick else rng.sample(POSITIONS[role], 2)
             for t in ts:
                 out.append(('systematic %s' % role, t.replace('{V}', v.strip() if role != 'regex' else v), None))
+            # the same value made sandbox dependent (validated post-sds): quick one position, thorough every position
+            if '"' in v or '\n' in v or '\x00' in v:
+                continue
+            for t in (POSITIONS[role] if not ctx.quick else rng.sample(POSITIONS[role], 1)):
+                sym = rng.choice(SDS_SYMBOLS)
+                out.append(('systematic %s, sandbox dependent' % role,
+                            with_def(t, sym).replace('{V}', sandbox_dependent(v, sym, rng.chance(0.7))), None))
     for ph in DIRECTIVE_PHASES:
         for line, is_error in DIRECTIVE_VARIANTS:
             for ending, tag in (('\n', 'last line'), ('', 'last line, no final newline'), ('\n# next line\n', 'followed by a line')):
